@@ -77,5 +77,7 @@ k("C20", "extract|String|label-does-not-resolve-in-json|member-of-the-Reference.
 
 FIXED.append("fixed: property=C02 26a16c9 MedicationKnowledge.kinetics.lethalDose50 (and every element whose name has digits or consecutive capitals) failed with ErrInvalidField (found by the C20 extraction labels)")
 
+FIXED.append("fixed: property=C02 e573670 Device.udiCarrier.carrierAIDC / carrierHRF failed with ErrInvalidField: the snake_case guard rejected names with consecutive capitals")
+
 if __name__ == '__main__':
     write()
